@@ -24,6 +24,7 @@ from fvmon import gen
 from fvmon.monitor import jhash
 
 SPEC = {
+    "anchors": ["fibertree.codec.tensor_codec:Codec.encode", "fibertree.codec.formats.uncompressed:Uncompressed.encodeFiber", "fibertree.codec.formats.coord_list:CoordinateList.encodeFiber", "fibertree.codec.formats.bitvector:Bitvector.encodeFiber", "fibertree.codec.formats.coord_list:CoordinateList.coordToHandle", "fibertree.codec.formats.compression_format:CompressionFormat.nextInSlice", "fibertree.codec.formats.uncompressed:Uncompressed.getSize", "fibertree.codec.formats.coord_list:CoordinateList.getSize", "fibertree.codec.formats.bitvector:Bitvector.getSize"],
     "rule": ("case = (tensor of depth 1-3 given as a tree spec, declared shape or none, one descriptor over {U,C,B}^depth, "
              "imposed shape or none); the tensor is rebuilt through Tensor.fromFiber / Tensor(rank_ids, shape) and "
              "encoded with Codec(desc, [True]*depth); get_output_dict; encode(-1, root, rank_ids, output, output_tensor, "
